@@ -16,6 +16,9 @@ LEVEL = "exploration"
 ATTR = "tag"
 
 
+NAN = float("nan")
+
+
 def patterns(verts):
     vs = list(verts)
     yield {v: "N" for v in vs}
@@ -56,6 +59,12 @@ def job(args):
                     attrs = {}      # the attribute is the built-in `uid` property: exactly the 'M' vertex (first in name order) carries the sought uid
                 dotted_mode = k % 17 == 8 and not (none_mode or xtype_mode or classattr_mode or uid_mode)      # the attribute's name contains a dot
                 nest_mode = k % 19 == 9 and not (none_mode or xtype_mode or classattr_mode or uid_mode or dotted_mode)   # the attribute is a property that itself searches
+                # stored and sought value are one and the same NaN object: identical, but not equal (==) - so it is no match
+                nan_mode = k % 23 == 10 and not (none_mode or xtype_mode or classattr_mode or uid_mode or dotted_mode or nest_mode)
+                if nan_mode:
+                    attrs = {v: ({ATTR: NAN} if p == "M" else ({ATTR: Tok(2, "stored-other")} if p == "N" else {})) for v, p in pat.items()}
+                    sought = NAN
+                    pat = {v: ("N" if p == "M" else p) for v, p in pat.items()}
                 attr_name = "net.role" if dotted_mode else ATTR
                 if dotted_mode:
                     attrs = {v: {attr_name: a_[ATTR]} if a_ else {} for v, a_ in attrs.items()}
@@ -68,7 +77,7 @@ def job(args):
                     attrs = {v: ({} if p == "M" else {ATTR: Tok(2, "stored-other")}) for v, p in pat.items()}
                 for tname, (mod, lst, gen, srch) in trav.TRAVS.items():
                     n += 1
-                    rec = dict(map={v: list(l) for v, l in nbmap.items()}, universe=members, trav=tname, search=srch, pattern=pat, vcls=vcls, sought_none=none_mode, mode=("sought-None" if none_mode else ("int-vs-float" if xtype_mode else ("class-level-attribute" if classattr_mode else ("uid-property" if uid_mode else ("attribute-name-with-a-dot" if (k % 17 == 8 and not (none_mode or xtype_mode or classattr_mode or uid_mode)) else ("property-that-searches" if vcls == "NestVert" else "token")))))))
+                    rec = dict(map={v: list(l) for v, l in nbmap.items()}, universe=members, trav=tname, search=srch, pattern=pat, vcls=vcls, sought_none=none_mode, mode=("nan-stored-and-sought-are-one-object" if nan_mode else "sought-None" if none_mode else ("int-vs-float" if xtype_mode else ("class-level-attribute" if classattr_mode else ("uid-property" if uid_mode else ("attribute-name-with-a-dot" if (k % 17 == 8 and not (none_mode or xtype_mode or classattr_mode or uid_mode)) else ("property-that-searches" if vcls == "NestVert" else "token")))))))
                     try:
                         if tname not in listings:
                             V = th.setup(nbmap, members, "Vertex", None)
